@@ -449,7 +449,7 @@ func c16r7(p *Prog, r *Reporter) {
 		r.Anchor("ecs.(*archetype).ExtendLayouts")
 		return
 	}
-	// extenders: functions that (transitively) call ExtendLayouts
+	// extenders: functions (and closures) that (transitively) call ExtendLayouts
 	extenders := map[*ssa.Function]bool{ext: true}
 	for changed := true; changed; {
 		changed = false
@@ -457,33 +457,74 @@ func c16r7(p *Prog, r *Reporter) {
 			if extenders[fn] {
 				continue
 			}
-			if fn.Object() == nil || fn.Object().Exported() {
+			if fn.Parent() == nil && (fn.Object() == nil || fn.Object().Exported()) {
 				continue // only the internal chain below the registration path
 			}
 			for _, site := range callsIn(fn) {
-				if sc := site.Common().StaticCallee(); sc != nil && extenders[sc] {
-					extenders[fn] = true
-					changed = true
+				callees, _ := p.Callees(site)
+				for _, sc := range callees {
+					if extenders[sc] {
+						extenders[fn] = true
+						changed = true
+					}
 				}
 			}
 		}
 	}
-	for _, fn := range p.Funcs {
-		for _, site := range callsIn(fn) {
-			sc := site.Common().StaticCallee()
-			if sc == nil || !extenders[sc] || !inLoop(site.Block()) {
-				continue
-			}
-			b := site.Block()
-			okc := false
-			for _, x := range fn.Blocks {
-				for _, s := range x.Succs {
-					if dominatesBlock(s, x) && dominatesBlock(s, b) && dominatesBlock(b, x) {
-						okc = true
-					}
+	everyIteration := func(fn *ssa.Function, b *ssa.BasicBlock) bool {
+		for _, x := range fn.Blocks {
+			for _, s := range x.Succs {
+				if dominatesBlock(s, x) && dominatesBlock(s, b) && dominatesBlock(b, x) {
+					return true
 				}
 			}
-			r.Check(okc, p.FuncName(fn), "extend every table via "+p.FuncName(sc), p.Pos(site.Pos()), "the extending call is executed on every iteration of the loop over nodes/tables")
+		}
+		return false
+	}
+	for _, fn := range p.Funcs {
+		for _, site := range callsIn(fn) {
+			if !inLoop(site.Block()) {
+				continue
+			}
+			// (a) a direct call of an extender inside a loop
+			if sc := site.Common().StaticCallee(); sc != nil && extenders[sc] {
+				r.Check(everyIteration(fn, site.Block()), p.FuncName(fn), "extend every table via "+p.FuncName(sc), p.Pos(site.Pos()), "the extending call is executed on every iteration of the loop over nodes/tables")
+				continue
+			}
+			// (b) a call of the function's own function parameter inside a loop (a visitor helper): for every closure
+			// that callers pass and that extends layouts, the visitor call runs on every iteration and the closure
+			// reaches the extending call on every path
+			pr, ok := site.Common().Value.(*ssa.Parameter)
+			if !ok || pr.Parent() != fn {
+				continue
+			}
+			for _, g := range p.Funcs {
+				for _, cs := range callsIn(g) {
+					if !isCallTo(cs, fn) || paramIndex(pr) >= len(cs.Common().Args) {
+						continue
+					}
+					cl := closureFn(cs.Common().Args[paramIndex(pr)])
+					if cl == nil || !extenders[cl] {
+						continue
+					}
+					must := &MustFlow{Fn: cl, InstrGen: func(i2 ssa.Instruction) bool {
+						c2, ok := i2.(ssa.CallInstruction)
+						if !ok {
+							return false
+						}
+						callees, _ := p.Callees(c2)
+						for _, sc := range callees {
+							if extenders[sc] {
+								return true
+							}
+						}
+						return false
+					}}
+					must.Run()
+					okc := everyIteration(fn, site.Block()) && must.AtAllReturns()
+					r.Check(okc, p.FuncName(g), "extend every table via "+p.FuncName(fn), p.Pos(cs.Pos()), "the visitor is called on every iteration of the helper's loop and the closure passed here reaches the extending call on every path")
+				}
+			}
 		}
 	}
 }
